@@ -170,6 +170,18 @@ class Sandbox:
             return self.emit("nk", {"file": file}, table={"k": 0, "rc": False, "names": [], "rows": [], "nsk": [], "ksize": -1})
         return self.emit("nk", {"file": file}, table=t)
 
+    def run_out(self, args):
+        """Run a command whose result goes to stdout or, every third time, to `-o FILE` - always the same FILE, so that it
+        already exists with the (usually longer or shorter) result of an earlier command: the new result must replace it."""
+        self.nout = getattr(self, "nout", 0) + 1
+        if self.nout % 3 != 0:
+            return vlib.ska_cli(args)
+        path = os.path.join(self.dir, "result_of_dash_o.txt")
+        rcode, so, se = vlib.ska_cli(list(args) + ["-o", path])
+        if rcode == 0 and os.path.exists(path):
+            so = open(path, "rb").read()
+        return rcode, so, se
+
     def align(self, file, n, minf, filt, am, mask, nogap, threads=1):
         args = ["align", self.path(file), "--min-freq", fstr(minf), "--filter", filt, "--threads", str(threads)]
         if am:
@@ -178,7 +190,7 @@ class Sandbox:
             args.append("--ambig-mask")
         if nogap:
             args.append("--no-gap-only-sites")
-        rcode, so, se = vlib.ska_cli(args)
+        rcode, so, se = self.run_out(args)
         ctx = {"file": file, "minf": minf, "filter": filt, "am": am, "mask": mask, "nogap": nogap,
                "fp_ceil_differs": fp_ceil_differs(n, minf)}
         if rcode != 0:
@@ -190,7 +202,7 @@ class Sandbox:
         args = ["distance", self.path(file), "--min-freq", fstr(minf), "--threads", str(threads)]
         if allow_ambig:
             args.append("--allow-ambiguous")
-        rcode, so, se = vlib.ska_cli(args)
+        rcode, so, se = self.run_out(args)
         ctx = {"file": file, "minf": minf, "allow_ambig": allow_ambig, "threads": threads,
                "fp_ceil_differs": fp_ceil_differs(n, minf)}
         if rcode != 0:
@@ -199,8 +211,16 @@ class Sandbox:
         for line in so.decode().splitlines()[1:]:
             if not line.strip():
                 continue
+            if len(line.split("\t")) != 4:
+                rows.append(["<malformed line>", line[:40], -1, -1])      # data: a line that is not a pair record
+                continue
             a, c, d, m = line.split("\t")
             # NaN / inf are data (never a valid distance or proportion): recorded as -1
-            fin = lambda x, sc: int(round(float(x) * sc)) if float(x) == float(x) and abs(float(x)) != float("inf") else -1
+            def fin(x, sc):
+                try:
+                    v = float(x)
+                except ValueError:
+                    return -1
+                return int(round(v * sc)) if v == v and abs(v) != float("inf") else -1
             rows.append([a, c, fin(d, 100), fin(m, 100000)])
         return self.emit("distance", ctx, ok=True, rows=rows)
